@@ -154,7 +154,10 @@ def run_shard(binpath, part, tier, shard, shards, workdir, only_case=None, seed=
     sh = "ulimit -v %d; exec \"$@\"" % memkb
     with open(logf, "w") as lf:
         try:
-            p = subprocess.run(["bash", "-c", sh, "x"] + cmd, cwd=os.path.join(REPO, part["pkg"]), env=env,
+            cwd = os.path.join(REPO, part["pkg"])
+            if not os.path.isdir(cwd):
+                cwd = REPO  # virtual package (exists only in the overlay)
+            p = subprocess.run(["bash", "-c", sh, "x"] + cmd, cwd=cwd, env=env,
                                stdout=lf, stderr=subprocess.STDOUT, timeout=deadline * 2 + 120)
             rc = p.returncode
         except subprocess.TimeoutExpired:
